@@ -75,6 +75,25 @@ CLAIMED["C12"] = dict(
     note="Trusted: TLC, BigNat overrides, SM2/EC/Bn/SM3 TLA+ definitions (KAT-pinned), replayer plumbing incl. the scripted reader. SM9 Sign output is pinned only through the draw (exact S is C10). Uniformity follows from equality with the sampled block; it is not tested statistically.",
     technique="TLA+ executable specification + TLC exploration of stream classes and fault positions + spec-to-code trace replay with scripted random sources")
 
+CLAIMED["C06"] = dict(
+    category="model_checking",
+    text="GB/T 32918.2 signing and verification (with range checks) and strict DER are executable TLA+ operators pinned by the GB/T 32918.5 Annex A vectors. TLC explores a key-object state machine: construction routes, 9 sign entry points, uid/message lengths up to 8191 / 1 KiB, digests crafted to hit every retry condition and extreme (r,s) shapes, histories of up to 3 Sign calls on one key object (incl. d = n-1 and above), every byte flip, ~100 structural/integer/context mutations and random forgeries; Complete, OnlyHonestAccepted (Sound on a refinement instance) and BadKeyAlwaysErr are checked on the model. Every transition is replayed through 6 verification and 9 signing entry points in 4 EC dispatch configurations with byte-exact expectations (scripted nonce source), and recorded histories are validated against the specification.",
+    design_ref="DESIGN.md section 4, C06",
+    note="Trusted: TLC, BigNat overrides, SM2/EC/Der TLA+ (KAT-pinned), replayer/recorder plumbing. Digests are 32 bytes, public keys valid; bit flips and random forgeries test agreement, not unforgeability.",
+    technique="TLA+ executable specification + TLC exploration of key-object histories and signature mutations + two-way trace conformance")
+CLAIMED["C07"] = dict(
+    category="model_checking",
+    text="The specification itself runs GB/T 32918.4 encryption with scalars of its choice (key x |M| at every 32-byte KDF seam up to 257 x scalar class, incl. the constructive M = t case with all-zero C2 and all-zero-mask scalars), writes all five ciphertext layouts, runs every helper chain of length <= 3 and applies every single-byte XOR, format-byte replacement, truncation and 16 malformations for |M| <= 33; every reply comes from the TLA+ B1-B7 and is replayed against sm2.Decrypt, PrivateKey.Decrypt, the three converters and ParseEnvelopedPrivateKey in 7 EC x SM3 configurations. Library-side encryptions with library-drawn scalars (incl. scripted streams that force the A5 retry and C2 = 0) are recorded and decrypted by TLC (Trace_Sm2Pke).",
+    design_ref="DESIGN.md section 4, C07",
+    note="Trusted: TLC, BigNat overrides, SM2/EC/SM3/Kdf/DerCt TLA+ (KAT-pinned), replayer/recorder plumbing. The legacy math/big path on P-256 is covered only relationally (round trip, refusal without panic); hybrid C1 is outside the property's layouts.",
+    technique="TLA+ executable specification + TLC exploration of ciphertext constructions and corruptions + two-way trace conformance")
+CLAIMED["C20"] = dict(
+    category="model_checking",
+    text="TLC verifies InitOnce, UseAfterPublish, Linearizable, mutual exclusion and deadlock-freedom over every interleaving of N<=4 goroutines x K<=3 calls on objects with one to three (nested) sync.Once-guarded caches (LazyInit.tla) and derives the attack schedules from the unguarded variants (which must fail). A -race schedule replayer forces those schedules through gate hooks and records perturbed free schedules on 13 kinds of fresh shared real objects (package singletons once per fresh child process); every result is compared with the sequential call, every recorded gate-event trace is validated by TLC against the same Guarded actions (Trace_LazyInit), and the Go race detector monitors all runs. A harness-internal unguarded toy object must be caught on every run.",
+    design_ref="DESIGN.md section 4, C20",
+    note="Trusted: TLC, the gate hooks (build tag verif), the Go race detector as monitor, harness plumbing. Real interleavings are sampled and steered only at the gate points; three sync.Once sites have no hook (system roots, randutil, purego sm2p256B) and are covered by results and the race detector only.",
+    technique="TLA+ model of lazy initialisation checked by TLC + schedule replay through gate hooks + recorded-trace validation + race detector")
+
 NOT_BUILT = "not built yet (in progress; see DESIGN.md section 9 build order)"
 NA = {}
 
